@@ -11,6 +11,8 @@ def run(tier, seed):
     run_bounded(rep, "C02", [("calls-cover", {"calls_focus": True, "max_funcs": 3}, "cover16", 260 if q else 2500),
                              ("general-cover", {}, "cover16", 200 if q else 2500),
                              ("chain-cover", {"calls_focus": True, "chain": True, "max_funcs": 4}, "cover16", 120 if q else 2000),
+                             ("chain-tco", {"calls_focus": True, "chain": True, "max_funcs": 4}, "tco", 400 if q else 6000),
+                             ("calls-tco", {"calls_focus": True, "max_funcs": 3}, "tco", 300 if q else 6000),
                              ("calls-all256", {"calls_focus": True, "max_funcs": 3}, "cover16" if q else "all256", 40 if q else 300)],
                 budget_s=80 if q else 1500, seed=seed)
     rep.trust("spec/ic10_machine.py", "spec/dialect.py", "spec/ic10_ops.py", "spec/ic10_isa.py")
